@@ -355,7 +355,8 @@ def run_check(prop_id, tier, seed):
         sim = None
         if c in walk_specs:
             sim = {"num": walk_specs[c]["num"], "depth": walk_specs[c]["depth"], "seed": seed}
-        return j, model_check(PRIMS[prim]["module"], c, wd, w, simulate=sim)
+        # the module is the first component of the config name (Mutex.conc-fair.cfg, MutexLive.fair.cfg, ...)
+        return j, model_check(c.split(".")[0], c, wd, w, simulate=sim)
     tour_jobs = [j for j in jobs if j[2]]
     deep_jobs = [j for j in jobs if not j[2]]
     with cf.ThreadPoolExecutor(max_workers=max(1, ncpu // 2)) as ex:
